@@ -64,14 +64,14 @@ pub fn convert_node(ast: &ASTTy, imp: &mut Imports, state: &State, ctx: &Context
             statements: convert_vec(statements, imp, state, ctx)?,
         },
 
-        NodeTy::Int { lit } => Core::Int { int: lit.clone() },
+        NodeTy::Int { lit } => Core::Int { int: py_int(lit) },
         NodeTy::Real { lit } => Core::Float { float: lit.clone() },
         NodeTy::ENum { num, exp } => Core::ENum {
-            num: num.clone(),
+            num: py_int(num),
             exp: if exp.is_empty() {
                 String::from("0")
             } else {
-                exp.clone()
+                py_int(exp)
             },
         },
         NodeTy::DocStr { lit } => Core::DocStr {
@@ -432,6 +432,18 @@ fn append_ret(core: &Core) -> Core {
         _ => Core::Return {
             expr: Box::from(core.clone()),
         },
+    }
+}
+
+/// Python does not accept leading zeros in a decimal integer literal (a real number may have them).
+fn py_int(lit: &str) -> String {
+    let trimmed = lit.trim_start_matches('0');
+    if lit.contains('.') || trimmed.len() == lit.len() {
+        String::from(lit)
+    } else if trimmed.is_empty() {
+        String::from("0")
+    } else {
+        String::from(trimmed)
     }
 }
 
